@@ -18,7 +18,7 @@ RULE = ("the tree / option catalogue of C02 (structural trees with hard links, -
         "script (kind, file, link target) equal the operations observed in the call log of the real run; script groups "
         "follow the report order; the summaries agree; the tree after `bash script` equals the tree after the real run "
         "(types, bytes, link targets, hard-link partition). Schedule part: for a 5-group report the script is identical "
-        "for ALL 5! arrival orders at the log_script collector seam (E6) and for RAYON_NUM_THREADS in {1,2,16}. "
+        "for ALL 5! arrival orders at the log_script collector seam (E6), also when one or two (adjacent or not) groups yield no command because every member is protected by --keep-name, and for RAYON_NUM_THREADS in {1,2,16}. "
         "Non-trivial = script with at least one operation; distinct by (tree, op, options, format).")
 ASSUMPTIONS = ["bash + coreutils (rm, mv, ln) are the reference for executing the script",
                "`move` and `dedupe` scripts are compared with the real run operation by operation but are not executed "
@@ -55,6 +55,10 @@ def cases(tier, seed):
     ngroups = 4 if quick else 5
     for op in ("remove", "link", "softlink", "move"):
         out.append({"kind": "orders", "ngroups": ngroups, "op": op})
+    # groups that yield no command at all (every member protected), alone and next to each other
+    for keep in ("g[12]_*", "g[01]_*", "g[23]_*", "g[02]_*", "g0_*"):
+        out.append({"kind": "orders", "ngroups": ngroups, "op": "remove", "dargs": ["--keep-name", keep]})
+    out.append({"kind": "orders", "ngroups": ngroups, "op": "link", "dargs": ["--keep-name", "g[12]_*"]})
     return out
 
 
@@ -218,8 +222,12 @@ def evaluate_orders(case):
         outs = set()
         norm = lambda s: re.sub(r"\.[A-Za-z0-9]{24}(?![A-Za-z0-9])", ".TMP", s)
         for idx in range(perm_count(n)):
-            r = D.run_dedupe(sc, case["op"], [], report, dry_run=True, target=target,
-                             env_extra={"FCLONES_VERIF_PERM": "log_script:%d" % idx, "RAYON_NUM_THREADS": "2"})
+            r = D.run_dedupe(sc, case["op"], case.get("dargs", []), report, dry_run=True, target=target,
+                             env_extra={"FCLONES_VERIF_PERM": "log_script:%d" % idx, "RAYON_NUM_THREADS": "2"}, timeout=60)
+            if r["timeout"]:
+                viol.append({"kind": "hang", "op": case["op"], "seam": "log_script", "empty_groups": bool(case.get("dargs")),
+                             "detail": "arrival order %d of %d groups (%s): the dry run did not finish" % (idx, n, case.get("dargs"))})
+                break
             runs += 1
             if r["rc"] != 0:
                 viol.append({"kind": "dry_run_failed", "op": case["op"], "detail": "order %d: %s" % (idx, r["err"][-300:])})
@@ -229,18 +237,18 @@ def evaluate_orders(case):
             if ref is None:
                 ref = o
             elif o != ref:
-                viol.append({"kind": "order_differs", "op": case["op"], "seam": "log_script",
+                viol.append({"kind": "order_differs", "op": case["op"], "seam": "log_script", "empty_groups": bool(case.get("dargs")),
                              "detail": "arrival order %d of %d groups gives a different script/summary than order 0:\n%s\n--- vs ---\n%s" % (
                                  idx, n, o[:400], ref[:400])})
                 break
         for threads in ("1", "2", "16"):
-            r = D.run_dedupe(sc, case["op"], [], report, dry_run=True, target=target, env_extra={"RAYON_NUM_THREADS": threads})
+            r = D.run_dedupe(sc, case["op"], case.get("dargs", []), report, dry_run=True, target=target, env_extra={"RAYON_NUM_THREADS": threads})
             runs += 1
             o = norm(r["out"]) + "|" + str(D.parse_summary(r["err"]))
             if ref is not None and o != ref:
                 viol.append({"kind": "order_differs", "op": case["op"], "seam": "threads",
                              "detail": "RAYON_NUM_THREADS=%s gives a different script" % threads})
-    return {"violations": viol, "nontrivial": [[case["op"], "orders", i] for i in range(runs)], "outcome": "orders_explored",
+    return {"violations": viol, "nontrivial": [[case["op"], "orders", " ".join(case.get("dargs", [])), i] for i in range(runs)], "outcome": "orders_explored",
             "evaluations": runs, "counters": {"arrival_orders": perm_count(n)},
             "sample": {"op": case["op"], "groups": n, "arrival_orders": perm_count(n)}}
 
